@@ -27,8 +27,20 @@ MODULE, CFG = "GrammarTrace", "GrammarTrace.cfg"
 JOBS = 6
 
 
+def fixed_ids():
+    """findings of C16 repaired in /repo (`fixed:` lines of known_findings.json, or C16_ASSUME_FIXED=C16-e for a
+    trial against a patched tree): no longer steered around, their reproductions become regression cases"""
+    ids = set(x for x in os.environ.get("C16_ASSUME_FIXED", "").split(",") if x)
+    for line in vlib.load_known().get("fixed", []):
+        if "property=C16" in line:
+            ids.update(re.findall(r"\b(?:C16-[a-z]|F\d+)\b", line))
+    return ids
+
+
 def gen_raw(ctx, mode, simulate=None, seed=None, maxlen=4, timeout=600, workers=1):
-    cfg = el.cfg_with("Gen_Grammar.cfg", Mode=f'"{mode}"', MaxLen=maxlen)
+    # C16-e (unbounded recursion) repaired by a nesting limit: nests around the limit and far beyond it
+    depths = "{10, 62, 63, 64, 65, 1000, 100000}" if "C16-e" in fixed_ids() else "{10, 100, 500}"
+    cfg = el.cfg_with("Gen_Grammar.cfg", Mode=f'"{mode}"', MaxLen=maxlen, NestedDepths=depths)
     cfgname = f"Gen_Grammar_{ctx.prop}_{os.getpid()}.cfg"
     path = os.path.join(vlib.SPEC, cfgname)
     open(path, "w").write(cfg)
@@ -220,9 +232,34 @@ def known_finding_runs(ctx, header, corpus):
     ev, _, bad = totality(ctx, "kf_f11", [T(s) for s in KF_LENIENT], header, kf_tag="lenient-disagrees-with-strict", batch=100, jobs=1)
     rep = [s for e in ev if e["ev"] == "batch" for s, o in zip(KF_LENIENT, e["obs"]) if (o[0] == 0 and (o[2] != 0 or not o[3])) or (o[4] == 0 and (o[6] != 0 or not o[7]))]
     res["F11 lenient disagrees with strict"] = {"reproduced": rep, "not_reproduced": [s for s in KF_LENIENT if s not in rep]}
-    # unbounded recursion: deep nesting aborts the process (stack overflow)
-    ev, _, bad = totality(ctx, "kf_deep", KF_DEEP, header, kf_tag="deep-nesting-stack-overflow", batch=1, jobs=1)
-    res["deep nesting stack overflow"] = {"crash_events": sum(1 for e in ev if e["ev"] == "crash"), "inputs": len(KF_DEEP)}
+    if "C16-e" in fixed_ids():
+        deep_nesting(ctx, header)
+    else:
+        # unbounded recursion: deep nesting aborts the process (stack overflow)
+        ev, _, bad = totality(ctx, "kf_deep", KF_DEEP, header, kf_tag="deep-nesting-stack-overflow", batch=1, jobs=1)
+        res["deep nesting stack overflow"] = {"crash_events": sum(1 for e in ev if e["ev"] == "crash"), "inputs": len(KF_DEEP)}
+
+
+NEST_FORMS = [([10], [1], [11]), ([12, 10], [1], [11]), ([2, 10], [1], [11]), ([19, 24], [1], []), ([10], [], [])]   # (((a)))  +(+(a))  a:(a:(a))  NOT NOT a  ((((
+
+
+def deep_nesting(ctx, header):
+    """after the repair of C16-e (nesting limit): nests on both sides of Grammar!NestingLimit and far beyond it come back
+    as a query (within the limit) or as an error / a query with an error (beyond) - never as a crash.  One input per
+    batch; the batch is handed to the judge as a `nested` event with its depth."""
+    cases = [{"rep": {"pre": pre, "n": n, "mid": mid, "post": post}} for pre, mid, post in NEST_FORMS for n in (1, 10, 62, 63, 64, 65, 200, 3000, 100000)]
+    ev, _ = drive(ctx, header, cases, "deep", batch=1, jobs=2)
+    out = []
+    for e in ev:
+        if e["ev"] == "batch" and len(e["inputs"]) == 1 and isinstance(e["inputs"][0], dict):
+            r = e["inputs"][0]["rep"]
+            out.append({"ev": "nested", "n": r["n"], "closed": bool(r["mid"]) and (bool(r["post"]) or r["pre"] == [19, 24]), "pre": r["pre"], "obs": e["obs"][0]})
+        else:
+            out.append(e)
+    ok, bad = el.judge(ctx, MODULE, CFG, per_event_runs(out), "deep", key=totality_key, nontrivial=lambda r: True, timeout=300)
+    ctx.cov["totality_inputs"] = ctx.cov.get("totality_inputs", 0) + len(cases)
+    ctx.cov.setdefault("known_finding_runs", {})["C16-e deep nesting (repaired: nesting limit)"] = {"nests": len(cases), "accepted": ok, "rejected": bad}
+    log(f"[R] nesting limit: {len(cases)} nests of 1..100,000 levels: {ok} accepted, {bad} rejected")
 
 
 def binding_selftest(ctx, tot_ev, mean_ev):
